@@ -212,7 +212,7 @@ func ensureWorker() *worker {
 	return w
 }
 
-// pruneWork keeps the scratch area bounded: only the newest 3 instrumented trees stay.
+// pruneWork keeps the scratch area bounded: only the newest 8 instrumented trees stay.
 func pruneWork(keep string) {
 	ents, _ := os.ReadDir(filepath.Join(verifDir, ".work"))
 	type e struct {
@@ -236,7 +236,7 @@ func pruneWork(keep string) {
 	}
 	sort.Slice(es, func(i, j int) bool { return es[i].t.After(es[j].t) })
 	for i, x := range es {
-		if i >= 2 {
+		if i >= 7 {
 			os.RemoveAll(x.p)
 		}
 	}
